@@ -105,3 +105,46 @@ p3_proof!(c02_pmh3_step_m3_n4, 7, c02_pmh3_step::<3, 4>(any_pow2_weight()));
 p3_proof!(c02_pmh3_step_m4_n5, 8, c02_pmh3_step::<4, 5>(any_pow2_weight()));
 p3_proof!(c02_pmh3_step_m2_n3_w3, 6, c02_pmh3_step::<2, 3>(3.0));
 p3_proof!(c02_pmh3_step_m3_n4_w07, 7, c02_pmh3_step::<3, 4>(0.7));
+
+// =====================================================================================
+// C02 — ProbMinHash3 == ProbMinHash3a on the same weighted set (fresh sketchers, shared oracle)
+// =====================================================================================
+// Item labels are concrete (the per-item generator is an oracle keyed by the label's hash, so labels only
+// need to be distinct); weights are powers of two; every generator output is symbolic.  Races that are not
+// over within the unwinding bound are cut (--no-unwinding-checks), as in the step lemma.
+fn c02_3_vs_3a<const M: usize>(w1: f64, w2: f64) {
+    let mut a = Pmh3 {
+        m: M,
+        b_hasher: BuildHasherDefault::<NoHashHasher>::default(),
+        maxvaluetracker: MaxValueTracker::new(M),
+        exp01: unit_sampler(),
+        signature: vec![0u64; M],
+    };
+    let mut b = Pmh3a {
+        m: M,
+        b_hasher: BuildHasherDefault::<NoHashHasher>::default(),
+        maxvaluetracker: MaxValueTracker::new(M),
+        exp01: unit_sampler(),
+        to_be_processed: Vec::new(),
+        signature: vec![0u64; M],
+    };
+    let mut map: IndexMap<u64, f64, BuildHasherDefault<fnv::FnvHasher>> = IndexMap::with_hasher(Default::default());
+    map.insert(11u64, w1);
+    map.insert(22u64, w2);
+    a.hash_item(11u64, &w1);
+    a.hash_item(22u64, &w2);
+    b.hash_weigthed_idxmap(&map);
+    for p in 0..M {
+        assert!(a.get_signature()[p] == b.get_signature()[p]);
+        assert!(beq(a.maxvaluetracker.get_value(p), b.maxvaluetracker.get_value(p)));
+        assert!(a.get_signature()[p] == 11 || a.get_signature()[p] == 22);
+    }
+    kani::cover!(a.get_signature()[0] != a.get_signature()[M - 1], "witness: both items present");
+    std::mem::forget(map);
+}
+
+#[kani::proof]
+#[kani::unwind(12)]
+fn c02_pmh3_vs_3a_m2() {
+    c02_3_vs_3a::<2>(1.0, 2.0);
+}
